@@ -9,6 +9,8 @@ import (
 	"sort"
 	"strings"
 
+	"verif/mc/model"
+
 	"google.golang.org/protobuf/proto"
 	"google.golang.org/protobuf/reflect/protoreflect"
 )
@@ -30,6 +32,7 @@ type Inst struct {
 	Target  string            `json:"target,omitempty"`
 	Headers map[string]string `json:"headers,omitempty"`
 	Class   string            `json:"class"`
+	Want    string            `json:"want,omitempty"` // response_200: the documented (M-json canonical) form of the value the handler returned
 }
 
 func c06Unit(j *Job, u *JobUnit) error {
@@ -116,7 +119,13 @@ func c06Unit(j *Job, u *JobUnit) error {
 					kind = "response_400"
 				}
 				if len(f.calls) > 0 || ex.Status != 404 {
-					emit(&Inst{Svc: js.Name, RPC: m.Name, Kind: kind, Body: string(ex.RespBody), Class: class})
+					want := ""
+					if kind == "response_200" && resp != nil {
+						if v, err := model.Encode(resp.ProtoReflect(), model.EncOpts{}); err == nil {
+							want = string(model.Marshal(v))
+						}
+					}
+					emit(&Inst{Svc: js.Name, RPC: m.Name, Kind: kind, Body: string(ex.RespBody), Class: class, Want: want})
 				}
 			}
 			Enumerate(m.In, inDims, devFor(inDims), func(p Point) bool {
